@@ -192,6 +192,91 @@ fn step(_: &mut (), t: &mut Toks) -> R<String> {
             }
             Ok(ok(reps.join(" ; ")))
         }
+        // object history with READS between the fits and no forced setter (see Drv/C06.lean `hist2`)
+        "hist2" => {
+            let fam = family(t.tok()?)?;
+            let k = t.usize()?;
+            enum H {
+                Fit(usize, f64, f64, usize, Prob),
+                Read,
+                SetP(f64),
+                SetT(f64),
+                SetW(Vec<f64>),
+                SetO(Vec<f64>),
+                SetC(Vec<f64>),
+            }
+            let mut steps = Vec::new();
+            for _ in 0..k {
+                steps.push(match t.tok()? {
+                    "F" => {
+                        let mode = t.usize()?;
+                        let (a, tl) = (t.f64()?, t.f64()?);
+                        let mi = t.usize()?;
+                        H::Fit(mode, a, tl, mi, problem(t)?)
+                    }
+                    "R" => H::Read,
+                    "SP" => H::SetP(t.f64()?),
+                    "ST" => H::SetT(t.f64()?),
+                    "SW" => H::SetW(t.vec()?),
+                    "SO" => H::SetO(t.vec()?),
+                    "SC" => H::SetC(t.vec()?),
+                    _ => return Err(BadOp),
+                });
+            }
+            t.end()?;
+            let mut glm = GLM::new(fam);
+            let mut reps: Vec<String> = Vec::new();
+            let mut last: Option<(&Prob, bool)> = None;
+            for st in &steps {
+                match st {
+                    H::Fit(mode, a, tl, mi, pr) => {
+                        match mode {
+                            0 => {}
+                            1 => {
+                                glm.set_penalty(*a).set_tolerance(*tl);
+                            }
+                            _ => {
+                                glm.alpha = *a;
+                                glm.tolerance = *tl;
+                            }
+                        }
+                        if let Some(w) = &pr.w {
+                            if *mode == 2 {
+                                glm.weights = Some(w.clone());
+                            } else {
+                                glm.set_weights(w);
+                            }
+                        }
+                        if let Some(o) = &pr.off {
+                            glm.set_offset(o);
+                        }
+                        let okflag = glm.fit(&pr.x, &pr.y, *mi).is_ok();
+                        last = Some((pr, okflag));
+                    }
+                    H::Read => {
+                        let (pr, okflag) = last.expect("read before any fit");
+                        let r = report(&glm, okflag, pr);
+                        reps.push(r[2..].to_string());
+                    }
+                    H::SetP(a) => {
+                        glm.set_penalty(*a);
+                    }
+                    H::SetT(a) => {
+                        glm.set_tolerance(*a);
+                    }
+                    H::SetW(v) => {
+                        glm.set_weights(v);
+                    }
+                    H::SetO(v) => {
+                        glm.set_offset(v);
+                    }
+                    H::SetC(v) => {
+                        glm.set_coef(v);
+                    }
+                }
+            }
+            Ok(ok(reps.join(" ; ")))
+        }
         // the methods of ExponentialFamily, called directly
         "fam" => {
             let fam = family(t.tok()?)?;
